@@ -112,6 +112,9 @@ def run_checks(mdir, checks, log):
                     results[c]["replay"] = json.load(open(rp))
     finally:
         sh(["git", "-C", REPO, "checkout", "--", "."])
+        # the checks regenerated coq/Gen/*.v from the changed source: regenerate them from the restored one
+        for tool, name in (("translate.py", "Tables"), ("translate_facts.py", "Facts"), ("translate_bytes.py", "Bytes"), ("translate_subset.py", "Subset")):
+            sh([sys.executable, os.path.join(VERIF, "tools", tool), os.path.join(VERIF, "coq", "Gen", name + ".v")])
     return results
 
 
